@@ -56,22 +56,9 @@ def c16_static(src):
 
 
 def buffers_static(src):
-    """C04/C07: the three buffer adaptors compute the same slice and cstring_buffer's iterator is a plain pointer:
-    each one-line body must still be the pointer operation R7 replaces it by (a pattern fact, not a proof)."""
+    """C04/C07: what of the buffer adaptors is not under contract in unit buffers: the cstring_buffer constructor copies the literal
+    through a pack expansion (R18), pinned as a pattern fact, not a proof."""
     pats = [
-        ('cstring-get_view', r'constexpr std::string_view get_view\(iterator start, iterator end\) const \{ return std::string_view\(start\.ptr, end\.ptr - start\.ptr\); \}'),
-        ('string-get_view', r'class string_buffer.*?std::string_view get_view\(iterator start, iterator end\) const\s*\{\s*return std::string_view\(str\.data\(\) \+ \(start - str\.begin\(\)\), end - start\);\s*\}'),
-        ('string_view-get_view', r'class string_view_buffer.*?std::string_view get_view\(iterator start, iterator end\) const\s*\{\s*return std::string_view\(str\.data\(\) \+ \(start - str\.begin\(\)\), end - start\);\s*\}'),
-        ('cstring-begin', r'constexpr iterator begin\(\) const \{ return iterator\{ data \}; \}'),
-        ('cstring-end', r'constexpr iterator end\(\) const \{ return iterator\{ data \+ N - 1 \}; \}'),
-        ('it-deref', r'constexpr char operator \*\(\) const \{ return \*ptr; \}'),
-        ('it-preinc', r'constexpr iterator& operator \+\+\(\) \{ \+\+ptr; return \*this; \}'),
-        ('it-eq', r'constexpr bool operator == \(const iterator& other\) const \{ return ptr == other\.ptr; \}'),
-        ('it-ne', r'constexpr bool operator != \(const iterator& other\) const \{ return ptr != other\.ptr; \}'),
-        ('it-plus', r'constexpr iterator operator \+ \(size_t len\) \{ iterator i\(\*this\); i\.ptr \+= len; return i; \}'),
-        ('it-pluseq', r'constexpr iterator& operator \+= \(size_t len\) \{ ptr \+= len; return \*this; \}'),
-        ('string-begin-end', r'class string_buffer.*?auto begin\(\) const \{ return str\.cbegin\(\); \}\s*auto end\(\) const \{ return str\.cend\(\); \}'),
-        ('string_view-begin-end', r'class string_view_buffer.*?auto begin\(\) const \{ return str\.cbegin\(\); \}\s*auto end\(\) const \{ return str\.cend\(\); \}'),
         ('copy_array', r'constexpr void copy_array\(T \*a1, const T\* a2, std::index_sequence<I\.\.\.>\)\s*\{\s*\(void\(a1\[I\] = a2\[I\]\), \.\.\.\);\s*\}'),
         ('cstring-ctor', r'constexpr cstring_buffer\(const char\(&source\)\[N1\]\)\s*\{\s*utils::copy_array\(data, source, std::make_index_sequence<N1>\{\}\);\s*\}'),
     ]
